@@ -635,6 +635,35 @@ def helper_calls(idx: Index, S: Sem) -> List[Tuple[FunctionInfo, ast.Call, Sem]]
 
 # ---------------------------------------------------------------------- statement-level inlining of private helpers
 
+def _tail_position_returns(body: List[ast.stmt]) -> bool:
+    """Every `return` of the statement list is in tail position (last statement, or last statement of an arm of a trailing if)."""
+    for s in body[:-1]:
+        if any(isinstance(n, ast.Return) for n in ast.walk(s)):
+            return False
+    if not body:
+        return True
+    last = body[-1]
+    if isinstance(last, ast.Return):
+        return True
+    if isinstance(last, ast.If):
+        return _tail_position_returns(last.body) and _tail_position_returns(last.orelse)
+    return not any(isinstance(n, ast.Return) for n in ast.walk(last))
+
+
+def _replace_tail_returns(body: List[ast.stmt], make_tail) -> List[ast.stmt]:
+    out = list(body)
+    if not out:
+        return out
+    last = out[-1]
+    if isinstance(last, ast.Return):
+        t = make_tail(last.value if last.value is not None else ast.Constant(value=None))
+        out = out[:-1] + ([t] if t is not None else [ast.Pass()] if not out[:-1] else [])
+    elif isinstance(last, ast.If):
+        last.body = _replace_tail_returns(last.body, make_tail) or [ast.Pass()]
+        last.orelse = _replace_tail_returns(last.orelse, make_tail)
+    return out
+
+
 def _simple_body(g: FunctionInfo) -> Optional[Tuple[List[ast.stmt], Optional[ast.AST]]]:
     """(statements, returned expression) if g's only `return` is its last statement (or it has none), else None."""
     body = [s for s in g.node.body if not (isinstance(s, ast.Expr) and isinstance(s.value, ast.Constant) and isinstance(s.value.value, str))]
@@ -694,8 +723,14 @@ def inline_private_helpers(idx: Index, fi: FunctionInfo, depth: int = 2) -> Func
 
     def expand(call: ast.Call, g: FunctionInfo, make_tail) -> Optional[List[ast.stmt]]:
         sb = _simple_body(g)
+        tail_form = False
         if sb is None:
-            return None
+            body0 = [s for s in g.node.body if not (isinstance(s, ast.Expr) and isinstance(s.value, ast.Constant) and isinstance(s.value.value, str))]
+            if any(isinstance(n, (ast.Yield, ast.YieldFrom, ast.FunctionDef, ast.AsyncFunctionDef, ast.Lambda, ast.Global, ast.Nonlocal, ast.For, ast.While, ast.Try, ast.With))
+                   for s in body0 for n in ast.walk(s)) or not _tail_position_returns(body0):
+                return None
+            sb = (body0, None)
+            tail_form = True
         body, retv = sb
         params = list(g.params)
         if isinstance(call.func, ast.Attribute) and params and params[0] in ("self", "cls"):
@@ -732,9 +767,12 @@ def inline_private_helpers(idx: Index, fi: FunctionInfo, depth: int = 2) -> Func
                 pre.append(ast.copy_location(ast.Assign(targets=[ast.Name(id=p_ + tag, ctx=ast.Store())], value=copy.deepcopy(v), lineno=call.lineno), call))
         rn = _Rename(names, subst)
         new = pre + [rn.visit(copy.deepcopy(s)) for s in body]
-        tail = make_tail(rn.visit(copy.deepcopy(retv)) if retv is not None else ast.Constant(value=None))
-        if tail is not None:
-            new.append(tail)
+        if tail_form:
+            new = pre + _replace_tail_returns(new[len(pre):], make_tail)
+        else:
+            tail = make_tail(rn.visit(copy.deepcopy(retv)) if retv is not None else ast.Constant(value=None))
+            if tail is not None:
+                new.append(tail)
         for s in new:
             ast.fix_missing_locations(s)
         return new
